@@ -2,6 +2,7 @@ package vsim
 
 import (
 	"fmt"
+	"os"
 
 	"github.com/relab/hotstuff"
 	"github.com/relab/hotstuff/security/crypto"
@@ -205,3 +206,251 @@ func RunDirected(name string, variant int, ruleset string, n int, scheme string,
 }
 
 var _ = crypto.NameEDDSA
+
+// ---------------------------------------------------------------- hidden-lock scenarios (scripted leaders)
+
+// byzVotesFor lets the scripted actor vote like an honest replica for the given block (vote sent to everybody;
+// only the next leader uses it).
+func (c *Cluster) byzVotesFor(byz *Actor, b *hotstuff.Block, targets []*Actor) {
+	pc, err := byz.M.Auth.CreatePartialCert(b)
+	if err != nil {
+		return
+	}
+	for _, o := range targets {
+		c.enqueue(byz, o, hotstuff.VoteMsg{ID: byz.ID, PartialCert: pc})
+	}
+}
+
+// byzQC assembles a QC for b from the votes the actor has received plus its own vote.
+func (c *Cluster) byzQC(byz *Actor, b *hotstuff.Block) (hotstuff.QuorumCert, bool) {
+	var pcs []hotstuff.PartialCert
+	seen := map[hotstuff.ID]bool{}
+	for _, v := range byz.Byz.votes {
+		if v.BlockHash() == b.Hash() && !seen[v.Signer()] {
+			seen[v.Signer()] = true
+			pcs = append(pcs, v)
+		}
+	}
+	if !seen[byz.ID] {
+		if pc, err := byz.M.Auth.CreatePartialCert(b); err == nil {
+			pcs = append(pcs, pc)
+		}
+	}
+	if len(pcs) < c.W.Q() {
+		return hotstuff.QuorumCert{}, false
+	}
+	qc, err := byz.M.Auth.CreateQuorumCert(b, pcs[:c.W.Q()])
+	return qc, err == nil
+}
+
+// roundsUntil runs lock-step rounds (honest behaviour) until cond holds or max rounds passed.
+func (c *Cluster) roundsUntil(max int, cond func() bool) bool {
+	for i := 0; i < max && c.Panic == nil && len(c.Mon.Viol) == 0; i++ {
+		if cond() {
+			return true
+		}
+		c.cmd.topUp()
+		c.lockstepRound(nil)
+		c.Step++
+		c.Mon.afterStep()
+	}
+	return cond()
+}
+
+// RunHiddenLock: n=4, replica 4 Byzantine and leader of three consecutive views. It certifies X(v1)<-Y(v2)
+// secretly, lets a conflicting block W(v3) be certified, then extends Y in view 4 (block e, NOT consecutive
+// with Y) and shows a child of e to a single victim only. With the published commit rule nothing is committed
+// on the X branch; a rule that forgets that the top link of the three-chain must be consecutive commits X at the
+// victim while the others later commit the W branch. variant 1 shifts the gap to the lower link.
+func RunHiddenLock(variant int, ruleset, scheme string, rng *vbase.Rng, r *vbase.Result, enable func(*Monitors)) *Cluster {
+	sched := []hotstuff.ID{1, 2, 4, 4, 4, 1, 2, 1, 2, 1, 2, 1, 2, 1, 2, 1, 2, 1, 2}
+	if variant == 1 {
+		sched = []hotstuff.ID{1, 4, 4, 4, 4, 1, 2, 1, 2, 1, 2, 1, 2, 1, 2, 1, 2, 1, 2}
+	}
+	cfg := Config{N: 4, Ruleset: ruleset, Scheme: scheme, Cache: 0, Leader: "script", Sched: sched, BatchSize: 1,
+		Profile: "directed:hidden-lock", ByzRules: map[hotstuff.ID]string{}, Scripted: []hotstuff.ID{4}, Label: fmt.Sprintf("hidden-lock/%d", variant)}
+	c, err := NewCluster(cfg, rng, r)
+	if err != nil {
+		r.Inconclusive("cannot build hidden-lock cluster: " + err.Error())
+		return nil
+	}
+	enable(c.Mon)
+	byz := c.Actors[3]
+	H := c.Actors[:3]
+	st := byz.Byz
+	gen := hotstuff.GetGenesis()
+	genQC := hotstuff.NewQuorumCert(nil, 0, gen.Hash())
+	c.FaultSteps++
+	find := func(view hotstuff.View, proposer hotstuff.ID) *hotstuff.Block {
+		for _, b := range st.blocks {
+			if b.View() == view && b.Proposer() == proposer {
+				return b
+			}
+		}
+		return nil
+	}
+	allInView := func(as []*Actor, v hotstuff.View) func() bool {
+		return func() bool {
+			for _, a := range as {
+				if a.Node.VS.View() < v {
+					return false
+				}
+			}
+			return true
+		}
+	}
+	propose := func(b *hotstuff.Block, to []*Actor) {
+		c.registerByzBlock(byz, b)
+		c.trace(TraceEntry{Kind: "byz", From: byz.Name(), What: "propose", View: uint64(b.View())})
+		for _, o := range to {
+			c.enqueue(byz, o, hotstuff.ProposeMsg{ID: byz.ID, Block: b})
+		}
+	}
+	byzTimeout := func(v hotstuff.View, to []*Actor) {
+		vs, _ := byz.M.Auth.Sign(v.ToBytes())
+		tm := hotstuff.TimeoutMsg{ID: byz.ID, View: v, ViewSignature: vs, SyncInfo: hotstuff.NewSyncInfoWith(st.highQC())}
+		for _, o := range to {
+			c.enqueue(byz, o, tm)
+		}
+	}
+	dbg := os.Getenv("VERIF_DEBUG_HL") != ""
+	phase := func(name string) {
+		if dbg {
+			fmt.Fprintf(os.Stderr, "PHASE %s step=%d pool=%d byzvotes=%d blocks=%d:", name, c.Step, len(c.Pool), len(st.votes), len(st.blocks))
+			for _, a := range H {
+				fmt.Fprintf(os.Stderr, " %s[v=%d hqc=%d c=%d]", a.Name(), a.Node.VS.View(), a.Node.VS.HighQC().View(), len(c.Mon.commits[a.Idx]))
+			}
+			fmt.Fprintln(os.Stderr)
+		}
+	}
+	if dbg {
+		H[0].M.Logger.Keep = 60
+	}
+	done := func() *Cluster {
+		phase("done")
+		if dbg {
+			for _, l := range H[0].M.Logger.Tail() {
+				fmt.Fprintln(os.Stderr, "   ", l)
+			}
+		}
+		c.Mon.atEnd()
+		c.Close()
+		return c
+	}
+	c.Start()
+	c.Step = 1
+	var X, Y *hotstuff.Block
+	var qcY hotstuff.QuorumCert
+	if variant == 0 {
+		// views 1,2 honest: X by replica 1, Y by replica 2; votes for Y reach the Byzantine leader of view 3
+		if !c.roundsUntil(12, func() bool {
+			X, Y = find(1, 1), find(2, 2)
+			if Y == nil {
+				return false
+			}
+			_, ok := c.byzQC(byz, Y)
+			return ok
+		}) {
+			return done()
+		}
+		qcY, _ = c.byzQC(byz, Y)
+	} else {
+		// view 1 honest (X); the Byzantine leader of view 2 keeps QC(X) and lets W be certified in view 2, then proposes Y in view 3
+		if !c.roundsUntil(12, func() bool {
+			X = find(1, 1)
+			if X == nil {
+				return false
+			}
+			_, ok := c.byzQC(byz, X)
+			return ok
+		}) {
+			return done()
+		}
+	}
+	_ = X
+	phase("XY-certified")
+	// W: conflicting block on genesis, in the first view the attacker leads
+	wView := hotstuff.View(3)
+	if variant == 1 {
+		wView = 2
+	}
+	W := hotstuff.NewBlock(gen.Hash(), genQC, c.byzBatch(byz), wView, byz.ID)
+	propose(W, H)
+	if !c.roundsUntil(14, func() bool { _, ok := c.byzQC(byz, W); return ok }) {
+		return done()
+	}
+	qcW, _ := c.byzQC(byz, W)
+	phase("W-certified")
+	victim := H[2]
+	if variant == 1 {
+		// replica 1 must not learn about the X branch beyond X: cut it off while Y and e are proposed
+		groups := []int{1, 0, 0, 0}
+		c.SetPartition(groups)
+		qcX, _ := c.byzQC(byz, X)
+		Y = hotstuff.NewBlock(X.Hash(), qcX, c.byzBatch(byz), 3, byz.ID)
+		propose(Y, H[1:])
+		byzTimeout(2, H[1:])
+		if !c.roundsUntil(14, func() bool { _, ok := c.byzQC(byz, Y); return ok }) {
+			return done()
+		}
+		qcY, _ = c.byzQC(byz, Y)
+	}
+	// e: extends Y in view 4
+	e := hotstuff.NewBlock(Y.Hash(), qcY, c.byzBatch(byz), 4, byz.ID)
+	eTargets := H
+	if variant == 1 {
+		eTargets = H[1:]
+		byzTimeout(3, H[1:])
+	}
+	propose(e, eTargets)
+	if !c.roundsUntil(16, func() bool { _, ok := c.byzQC(byz, e); return ok }) {
+		return done()
+	}
+	qcE, _ := c.byzQC(byz, e)
+	phase("e-certified")
+	// g: child of e, shown to the victim only, in view 5
+	g := hotstuff.NewBlock(e.Hash(), qcE, c.byzBatch(byz), 5, byz.ID)
+	if variant == 1 {
+		byzTimeout(4, H[1:])
+	}
+	propose(g, []*Actor{victim})
+	c.roundsUntil(14, func() bool {
+		_, ok := victim.M.Chain.LocalGet(g.Hash())
+		return ok
+	})
+	phase("g-shown")
+	// the other honest replicas learn QC(W); the victim is cut off
+	c.SetPartition([]int{0, 0, 1, 0})
+	for _, o := range H[:2] {
+		c.enqueue(byz, o, hotstuff.NewViewMsg{ID: byz.ID, SyncInfo: hotstuff.NewSyncInfoWith(qcW)})
+	}
+	// from now on the attacker behaves like an honest voter and helps views time out
+	voted := map[hotstuff.Hash]bool{}
+	for i := 0; i < 40 && c.Panic == nil && len(c.Mon.Viol) == 0; i++ {
+		c.cmd.topUp()
+		c.lockstepRound(nil)
+		c.Step++
+		for _, b := range st.blocks {
+			if b.View() >= 6 && !voted[b.Hash()] && b.Proposer() != byz.ID {
+				voted[b.Hash()] = true
+				c.byzVotesFor(byz, b, H[:2])
+			}
+		}
+		// if nothing moves the attacker adds its timeout for the honest replicas' current view
+		if len(c.deliverable()) == 0 {
+			c.LocalTimeout(H[0])
+			c.LocalTimeout(H[1])
+			byzTimeout(H[0].Node.VS.View(), H[:2])
+			if H[1].Node.VS.View() != H[0].Node.VS.View() {
+				byzTimeout(H[1].Node.VS.View(), H[:2])
+			}
+		}
+		c.Mon.afterStep()
+		phase("tail")
+		if len(c.Mon.commits[H[0].Idx]) > 0 && len(c.Mon.commits[H[1].Idx]) > 0 {
+			break
+		}
+	}
+	_ = allInView
+	return done()
+}
